@@ -7,15 +7,16 @@ describe the code as it is; the correspondence check is what verifies it on ever
 namespace Kio
 
 def Env.shipped (codes : List Int) : Env :=
-  { errorCodes := codes, time := .shipped, skipUnknownTags := false }
+  { errorCodes := codes, time := .shipped, skipUnknownTags := false, nullableTaggedReader := false }
 def Env.repaired (codes : List Int) : Env :=
-  { errorCodes := codes, time := .repaired, skipUnknownTags := true }
+  { errorCodes := codes, time := .repaired, skipUnknownTags := true, nullableTaggedReader := true }
 
 /-- the model of the tree as it is now -/
 def Env.current (codes : List Int) : Env :=
   { errorCodes := codes,
     time := { tdExact := true, dtExact := true, dtMillis := true },
-    skipUnknownTags := true }
+    skipUnknownTags := true,
+    nullableTaggedReader := false }
 
 /-- the record-batch code as it is now -/
 def RecCfg.current : RecCfg := RecCfg.repaired
